@@ -21,11 +21,13 @@ from symx import core, patch, npfacade
 from symx.fs import SymFS
 
 RECIPE = os.path.join(common.VERIF, 'recipes', 'r_pipe.py')
+RECIPE2 = os.path.join(common.VERIF, 'recipes', 'r_pipe2.py')       # a second recipe, so that a history can cook twice
 
 OPS = [
     ('colander', 'all', None), ('colander', 'reversed', None), ('colander', 'first', None), ('colander', 'all', 0), ('colander', 'last-two', 0),
     ('combine-sibling', None, None), ('combine-into-ancestor', None, None),
     ('chef', 'keep-all', None), ('chef', 'keep-first', None), ('chef', 'keep-none', None),
+    ('chef', 'keep-last', 2), ('chef', 'keep-first', 2),
 ]
 
 
@@ -47,15 +49,16 @@ def pure(op, E, P0, Q):
             return None, None
         return outcheck.concat_fields(P0, outcheck.select_fields(E, [E.fields.index(f) for f in new])), None
     if kind == 'chef':
-        if 'cooked' in E.fields:
+        name = 'cooked' if b is None else 'cooked2'
+        if name in E.fields:
             return None, None
-        kept = {'keep-all': list(E.fields), 'keep-first': E.fields[:1], 'keep-none': []}[a]
+        kept = {'keep-all': list(E.fields), 'keep-first': E.fields[:1], 'keep-none': [], 'keep-last': E.fields[-1:]}[a]
         kidx = [E.fields.index(k) for k in kept]
         data, mins, maxs = [], [], []
         for l in range(E.nlev):
             ld, lmn, lmx = [], [], []
             for arr in E.data[l]:
-                new = arr[..., 0] + 2 * arr[..., arr.shape[-1] - 1]
+                new = arr[..., 0] + 2 * arr[..., arr.shape[-1] - 1] if b is None else arr[..., 0] - 3 * arr[..., arr.shape[-1] - 1]
                 out = np.concatenate([arr[..., kidx], new[..., np.newaxis]], axis=-1) if kidx else np.asarray(new)[..., np.newaxis]
                 ld.append(out)
                 lmn.append([core.smin(list(out[..., k].reshape(-1))) for k in range(out.shape[-1])])
@@ -63,7 +66,7 @@ def pure(op, E, P0, Q):
             data.append(ld)
             mins.append(lmn)
             maxs.append(lmx)
-        return outcheck.Exp(E.ndims, kept + ['cooked'], E.time, E.lo, E.hi, E.dx, E.ncell, E.boxes, data, mins, maxs), kept
+        return outcheck.Exp(E.ndims, kept + [name], E.time, E.lo, E.hi, E.dx, E.ncell, E.boxes, data, mins, maxs), kept
     raise KeyError(kind)
 
 
@@ -77,7 +80,7 @@ def apply(mods, op, cur, out, aux):
     elif kind == 'combine-into-ancestor':
         mods['amr_kitchen.combine.combine'].combine(PC('p0'), PC(cur), pltout=out)
     elif kind == 'chef':
-        ch = mods['amr_kitchen.chef.chef'].Chef(plotfile=cur, recipe=RECIPE, outfile=out, serial=(a != 'keep-all'), kept_fields=' '.join(aux) if aux else None)
+        ch = mods['amr_kitchen.chef.chef'].Chef(plotfile=cur, recipe=RECIPE if b is None else RECIPE2, outfile=out, serial=(a != 'keep-all'), kept_fields=' '.join(aux) if aux else None)
         ch.recipe.__globals__['np'] = npfacade.facade
         ch.cook()
 
@@ -201,7 +204,7 @@ def make_replay(P0ref, Qref, v):
         elif kind == 'combine-into-ancestor':
             lines.append("    combine(PlotfileCooker('p0'), PlotfileCooker(cur), pltout=%r)" % out)
         else:
-            lines.append("    Chef(plotfile=cur, recipe=%r, outfile=%r, serial=%r, kept_fields=%r).cook()" % (RECIPE, out, a != 'keep-all', ' '.join(aux) if aux else None))
+            lines.append("    Chef(plotfile=cur, recipe=%r, outfile=%r, serial=%r, kept_fields=%r).cook()" % (RECIPE if b is None else RECIPE2, out, a != 'keep-all', ' '.join(aux) if aux else None))
         lines.append("cur = %r" % out)
         steps.append((out, replay_lib.exp_to_json(E2, val)))
         E = E2
@@ -243,7 +246,7 @@ def main():
     rep = common.Report('C14')
     common.clear_replays('C14')
     rep.rule = ('operation instances: colander x {all, reversed, first field, all @ limit 0, last two @ limit 0}, combine x {with a sibling on the same mesh with another layout, '
-                'into the original ancestor}, chef(user recipe) x {keep all, keep first, keep none}; every sequence of length 1 and 2 over the 10 instances on a 2-level mesh, '
+                'into the original ancestor}, chef(user recipe) x {keep all, keep first, keep none} and chef(second recipe) x {keep last, keep first}; every sequence of length 1 and 2 over the 12 instances on a 2-level mesh, '
                 'seeded sequences of length 3-4 on two meshes; operations that are not applicable at a point of the history (no new field to combine, field already cooked) are skipped')
     rep.assumptions = ['payload symbolic: moved data are identity obligations, cooked fields polynomial identities; header numbers compared after parsing',
                        'one geometry is non-dyadic (0.1, 0.002 ...): tools only copy header numbers, so str(float) round trips are exercised']
